@@ -102,6 +102,16 @@ def run(ctx):
                         for pos, val in zip(rng.sample(range(flat.size), min(rng.randint(1, 3), flat.size)), rng.sample([np.nan, np.inf, -np.inf], 3)):
                             flat[pos] = val
             ctx.tag("nonfinite_test_samples")
+            # a kernel may REFUSE such a sample at run time (the integer RSQRT: "only defined for positive values"): then there are no
+            # tensor contents to compare, whoever runs the interpreter
+            try:
+                for sig_, samples_ in data.items():
+                    for smp_ in samples_:
+                        fv.capture(res["out"], sig_, smp_)
+                        fv.capture(case.mb, sig_, smp_)
+            except RuntimeError:
+                ctx.tag("nonfinite_sample_refused_by_a_kernel")
+                return
         fail = fp.failer(ctx, case, prefix=f"[{metric}] ")
         r = fv.cmp_validate(ctx, drv, case.mb, res["out"], data, metric)
         if r[0] == "ok":
